@@ -270,14 +270,20 @@ impl Gen {
             return None;
         }
         let r = &mut self.rng_sched;
+        if !w.held.is_empty() && self.rng_fault.chance(0.2) {
+            return Some(Event::ReleaseAnnouncements);
+        }
         Some(match r.weighted(&weights) {
             0 => {
                 let node = *r.pick(&live);
                 self.writes += 1;
                 let cfg2 = cfg.clone();
+                let p_hold = if cfg.focus == "C07" || cfg.focus == "C08" { 0.15 } else { 0.05 };
+                let hold = self.rng_fault.chance(p_hold);
                 Event::Write {
                     node,
                     stmts: self.gen_write(&cfg2, node),
+                    hold,
                 }
             }
             1 => {
@@ -508,7 +514,8 @@ fn schedule_hash(events: &[Event]) -> u64 {
     let mut h = 0xcbf2_9ce4_8422_2325;
     for e in events {
         let s = match e {
-            Event::Write { node, stmts } => format!("W{node}:{}", stmts.len().min(3)),
+            Event::Write { node, stmts, hold } => format!("W{node}:{}{}", stmts.len().min(3), if *hold { "h" } else { "" }),
+            Event::ReleaseAnnouncements => "RA".into(),
             Event::Deliver { node, msgs } => format!(
                 "D{node}:{}",
                 msgs.iter()
